@@ -263,6 +263,16 @@ impl Property for C20 {
                     let d = drng.pick(&paths).clone();
                     paths.push(d);
                 }
+                // last (after every other draw of this decoration): a header may also exist, with other content again, in
+                // the working directory - "working directory before search directories" must hold on every route alike
+                for (k, (hp, body)) in headers.iter().enumerate() {
+                    let name = hp.rsplit('/').next().unwrap_or("");
+                    let target = format!("/w/{}", name);
+                    if drng.chance(1, 5) && !name.is_empty() && !prog.nodes.iter().any(|n| n.path() == target) {
+                        let text = format!("{}`define CWDSHADOW{} {}\n", String::from_utf8_lossy(body), k, k + 200);
+                        prog.nodes.push(VNode::file(&target, &text));
+                    }
+                }
                 prog.include_paths = paths;
             }
         }
